@@ -48,6 +48,14 @@ def readline():
     line = line.rstrip('\r\n')
     count[0] += 1
     log('recv', line)
+    gate = sc.get('gate')
+    if gate and gate['at'] == count[0]:
+        # park the session here until the harness lets it go on
+        open(gate['file'] + '.reached', 'w').write(str(os.getpid()))
+        for _ in range(600):
+            if os.path.exists(gate['file'] + '.go'):
+                break
+            time.sleep(0.05)
     k = faults.get(count[0])
     if k == 'eof':
         log('fault', 'eof')
